@@ -1338,10 +1338,15 @@ int ov_raw_seek(OggVorbis_File *vf,ogg_int64_t pos){
               ogg_int64_t granulepos=op.granulepos-vf->pcmlengths[link*2];
               if(granulepos<0)granulepos=0;
 
+              /* position within this link; an end-trimmed final page
+                 can count more samples than it declares, but decode
+                 cannot begin before the link's first sample */
+              granulepos-=accblock;
+              if(granulepos<0)granulepos=0;
+
               for(i=0;i<link;i++)
                 granulepos+=vf->pcmlengths[i*2+1];
-              vf->pcm_offset=granulepos-accblock;
-              if(vf->pcm_offset<0)vf->pcm_offset=0;
+              vf->pcm_offset=granulepos;
               break;
             }
             lastblock=thisblock;
